@@ -827,6 +827,17 @@ impl ListingTable {
             let _ = lfc.remove(&key);
         }
 
+        // Name the files as COPY does: a compressed text format gets its
+        // compression suffix (e.g. `csv.gz`), otherwise a table whose
+        // `file_extension` is `.csv.gz` does not list the files it wrote.
+        let format = &self.options().format;
+        let file_extension = match format.compression_type() {
+            Some(compression_type) => format
+                .get_ext_with_compression(&compression_type)
+                .unwrap_or_else(|_| format.get_ext()),
+            None => format.get_ext(),
+        };
+
         // Sink related option, apart from format
         let config = FileSinkConfig {
             original_url: String::default(),
@@ -837,7 +848,7 @@ impl ListingTable {
             table_partition_cols: self.options.table_partition_cols.clone(),
             insert_op,
             keep_partition_by_columns,
-            file_extension: self.options().format.get_ext(),
+            file_extension,
             file_output_mode: FileOutputMode::Automatic,
         };
 
